@@ -23,20 +23,24 @@ EXTENDS Naturals, Sequences, FiniteSets
 CONSTANT Depth          \* 1: constructors over representatives; 2: one more level
 
 \* ----------------------------------------------------------- nominal environment
-\*   struct interface I1 {}   struct interface I2 {}   struct interface I3: I1 {}
-\*   resource interface RI {}
-\*   struct S: I1, I3 {}   struct S2: I2 {}   resource R: RI {}   resource R2 {}
+\*   struct interface I1 {}   struct interface I2 {}   struct interface I3: I1 {}   struct interface I4: I3 {}
+\*   resource interface RI {}   resource interface RI2: RI {}   resource interface RI3: RI2 {}
+\*   struct S: I1, I3 {}   struct S2: I2 {}   struct S3: I4 {}
+\*   resource R: RI {}   resource R2 {}   resource R3: RI3 {}
 \*   enum En: UInt8 {}   attachment At for R {}   attachment As for S {}
-Structs   == {"S", "S2"}
-Resources == {"R", "R2"}
-SIfaces   == {"I1", "I2", "I3"}
-RIfaces   == {"RI"}
+\* (inheritance chains of depth 3 in both kinds: what an interface inherits through a *grand*-parent
+\* must be visible in every intersection that names it)
+Structs   == {"S", "S2", "S3"}
+Resources == {"R", "R2", "R3"}
+SIfaces   == {"I1", "I2", "I3", "I4"}
+RIfaces   == {"RI", "RI2", "RI3"}
 Enums     == {"En"}
 RAttachments == {"At"}
 SAttachments == {"As"}
 Ifaces    == SIfaces \cup RIfaces
 Nominals  == Structs \cup Resources \cup Ifaces \cup Enums \cup RAttachments \cup SAttachments
-Conf(n) == CASE n = "S" -> {"I1", "I3"} [] n = "S2" -> {"I2"} [] n = "R" -> {"RI"} [] n = "I3" -> {"I1"} [] OTHER -> {}
+Conf(n) == CASE n = "S" -> {"I1", "I3"} [] n = "S2" -> {"I2"} [] n = "S3" -> {"I4"} [] n = "R" -> {"RI"} [] n = "R3" -> {"RI3"}
+             [] n = "I3" -> {"I1"} [] n = "I4" -> {"I3"} [] n = "RI2" -> {"RI"} [] n = "RI3" -> {"RI2"} [] OTHER -> {}
 Ents == {"E1", "E2"}
 EB == INSTANCE EntitlementsBase WITH E <- Ents
 
@@ -97,13 +101,15 @@ IfaceClosure(s) == s \cup UNION {ConfStar(i) : i \in s}
 
 \* ------------------------------------------------------------------ the universe
 Base == {P(n) : n \in Prims} \cup {Nom(n) : n \in Nominals}
-Inters == {Inter({"I1"}), Inter({"I2"}), Inter({"I3"}), Inter({"I1", "I2"}), Inter({"I1", "I3"}), Inter({"RI"})}
+Inters == {Inter({"I1"}), Inter({"I2"}), Inter({"I3"}), Inter({"I4"}), Inter({"I1", "I2"}), Inter({"I1", "I3"}), Inter({"I2", "I4"}),
+           Inter({"RI"}), Inter({"RI2"}), Inter({"RI3"})}
 \* one representative per equivalence class of the rules
 Reps == {P("Int"), P("Int8"), P("UFix64"), P("Integer"), P("String"), P("Never"), P("AnyStruct"), P("AnyResource"),
-         P("StoragePath"), Nom("S"), Nom("S2"), Nom("R"), Nom("I1"), Nom("I3"), Nom("RI"), Nom("En"),
-         Inter({"I1"}), Inter({"I1", "I2"}), Inter({"RI"})}
+         P("StoragePath"), Nom("S"), Nom("S2"), Nom("S3"), Nom("R"), Nom("R3"), Nom("I1"), Nom("I3"), Nom("RI"), Nom("En"),
+         Inter({"I1"}), Inter({"I4"}), Inter({"I1", "I2"}), Inter({"RI"}), Inter({"RI3"})}
 RefTargets == {P("Int"), P("Integer"), P("AnyStruct"), P("AnyResource"), Nom("S"), Nom("R"), Nom("I1"), Nom("I3"),
-               Inter({"I1"}), Inter({"I1", "I2"}), Inter({"RI"}), VArr(P("Int")), Nom("At"), Nom("As"),
+               Inter({"I1"}), Inter({"I3"}), Inter({"I4"}), Inter({"I1", "I2"}), Inter({"RI"}), Inter({"RI2"}), Inter({"RI3"}),
+               Nom("S3"), Nom("R3"), VArr(P("Int")), Nom("At"), Nom("As"),
                P("AnyStructAttachment"), P("AnyResourceAttachment")}
 Keys == {P("Int"), P("Integer"), P("String")}
 Funs == {Fun(p, tp, ps, r) : p \in BOOLEAN, tp \in {"none", "AnyStruct"},
